@@ -121,6 +121,9 @@ pub struct Plan {
     /// I/O plan per jar: index 0 = main jar, i + 1 = library i (missing entries: plain)
     pub io: Vec<IoPlan>,
     pub damage: Vec<Damage>,
+    /// run index the plan was drawn for (information only)
+    #[serde(default)]
+    pub run: u64,
 }
 
 impl Plan {
@@ -145,12 +148,16 @@ impl Plan {
         self.io.get(j).cloned().unwrap_or_default()
     }
     fn kind_of(&self, r: &MRef) -> String {
+        let tag = |m: &MethodSpec| if m.kind.is_empty() { "filler".to_string() } else { m.kind.clone() };
         for c in &self.main.classes {
             if c.name == r.0 {
-                for m in &c.methods {
-                    if m.name == r.1 && m.desc == r.2 {
-                        return if m.kind.is_empty() { "filler".into() } else { m.kind.clone() };
-                    }
+                if let Some(m) = c.methods.iter().find(|m| m.name == r.1 && m.desc == r.2) {
+                    return tag(m);
+                }
+                // a damaged descriptor: the only method of that name
+                let same: Vec<&MethodSpec> = c.methods.iter().filter(|m| m.name == r.1).collect();
+                if same.len() == 1 {
+                    return tag(same[0]);
                 }
             }
         }
@@ -527,6 +534,151 @@ fn classes_of_delivered(bytes: &[u8]) -> Delivered {
     Delivered::Classes(v)
 }
 
+/// this_class and direct super types as raw names, read with nothing but the constant-pool layout rules
+fn header_of(b: &[u8]) -> Option<(Vec<u8>, Vec<Vec<u8>>)> {
+    let u2 = |at: usize| -> Option<usize> { Some(((*b.get(at)? as usize) << 8) | *b.get(at + 1)? as usize) };
+    if b.get(..4)? != [0xCA, 0xFE, 0xBA, 0xBE] {
+        return None;
+    }
+    let count = u2(8)?;
+    let mut at = 10;
+    let mut utf8: BTreeMap<usize, &[u8]> = BTreeMap::new();
+    let mut class: BTreeMap<usize, usize> = BTreeMap::new();
+    let mut i = 1;
+    while i < count {
+        let tag = *b.get(at)?;
+        at += 1;
+        match tag {
+            1 => {
+                let l = u2(at)?;
+                utf8.insert(i, b.get(at + 2..at + 2 + l)?);
+                at += 2 + l;
+            }
+            3 | 4 | 9 | 10 | 11 | 12 | 17 | 18 => at += 4,
+            5 | 6 => {
+                at += 8;
+                i += 1;
+            }
+            7 => {
+                class.insert(i, u2(at)?);
+                at += 2;
+            }
+            8 | 16 | 19 | 20 => at += 2,
+            15 => at += 3,
+            _ => return None,
+        }
+        i += 1;
+    }
+    let name = |idx: usize| -> Option<Vec<u8>> { Some(utf8.get(class.get(&idx)?)?.to_vec()) };
+    let this = name(u2(at + 2)?)?;
+    let mut sup = vec![];
+    let s_idx = u2(at + 4)?;
+    if s_idx != 0 {
+        sup.push(name(s_idx)?);
+    }
+    let n = u2(at + 6)?;
+    for k in 0..n {
+        sup.push(name(u2(at + 8 + 2 * k)?)?);
+    }
+    Some((this, sup))
+}
+
+/// Does the hierarchy the delivered archives describe contain a cycle - or can that not be told?
+/// (The code under test recurses over super types; such an input is run in a child process.)
+fn hierarchy_risk(jars: &[Vec<u8>]) -> Option<&'static str> {
+    let mut g: BTreeMap<Vec<u8>, BTreeSet<Vec<u8>>> = BTreeMap::new();
+    for bytes in jars {
+        let Ok(entries) = open_entries(bytes) else { continue };
+        for (name, data) in entries {
+            if let EntryData::File(b) = data {
+                if name.ends_with(".class") {
+                    match header_of(&b) {
+                        Some((this, sup)) => g.entry(this).or_default().extend(sup),
+                        None => return Some("unreadable-header"),
+                    }
+                }
+            }
+        }
+    }
+    // iterative three-colour depth-first search
+    let mut colour: BTreeMap<&Vec<u8>, u8> = BTreeMap::new();
+    for start in g.keys() {
+        if colour.contains_key(start) {
+            continue;
+        }
+        let mut stack: Vec<(&Vec<u8>, Vec<&Vec<u8>>)> = vec![(start, g[start].iter().collect())];
+        colour.insert(start, 1);
+        while let Some((node, rest)) = stack.last_mut() {
+            match rest.pop() {
+                Some(next) => match colour.get(next) {
+                    Some(1) => return Some("cyclic-hierarchy"),
+                    Some(_) => {}
+                    None => {
+                        if let Some(e) = g.get_key_value(next) {
+                            colour.insert(e.0, 1);
+                            stack.push((e.0, e.1.iter().collect()));
+                        }
+                    }
+                },
+                None => {
+                    colour.insert(*node, 2);
+                    stack.pop();
+                }
+            }
+        }
+    }
+    None
+}
+
+static CHILD_SEQ: std::sync::atomic::AtomicU64 = std::sync::atomic::AtomicU64::new(0);
+
+/// Runs one operation of the plan's T2 stage in a child process with address-space and CPU limits.
+/// Returns (class, detail) if the child did not return.
+fn run_child(p: &Plan, op: &str) -> Option<(&'static str, String)> {
+    use std::os::unix::process::ExitStatusExt;
+    let seq = CHILD_SEQ.fetch_add(1, std::sync::atomic::Ordering::Relaxed);
+    let file = std::env::temp_dir().join(format!("c15-child-{}-{seq}.json", std::process::id()));
+    std::fs::write(&file, serde_json::to_string(&json!({"plan": p, "identity": ""})).expect("plan serialises")).expect("harness: cannot write child plan");
+    let exe = std::env::current_exe().expect("harness: own path");
+    let res = std::process::Command::new("sh")
+        .arg("-c")
+        .arg("ulimit -v 150000; ulimit -t 20; ulimit -c 0; exec \"$0\" C15 --replay \"$1\"")
+        .arg(&exe)
+        .arg(&file)
+        .env("C15_CHILD", op)
+        .output();
+    let _ = std::fs::remove_file(&file);
+    let o = res.expect("harness: cannot start child");
+    let err = String::from_utf8_lossy(&o.stderr);
+    // without the thread id, which differs from process to process
+    let first: String = err.lines().find(|l| !l.trim().is_empty()).unwrap_or("").chars().filter(|c| !c.is_ascii_digit()).collect();
+    if err.contains("overflowed its stack") {
+        return Some(("stack-overflow", first));
+    }
+    if err.contains("memory allocation") {
+        return Some(("abort-alloc", first));
+    }
+    match (o.status.code(), o.status.signal()) {
+        (Some(0), _) => None,
+        (Some(101), _) => Some(("panic", first)),
+        (_, Some(9)) | (_, Some(24)) | (Some(137), _) | (Some(152), _) => Some(("runaway", "CPU limit of 20 s reached".into())),
+        (c, sg) => Some(("abort-alloc", format!("child ended with code {c:?} signal {sg:?}: {first}"))),
+    }
+}
+
+/// Child side: perform the operation on the damaged media and leave (0 = it returned, 101 = it panicked).
+fn child_main(p: &Plan, op: &str) -> ! {
+    let n = p.njars();
+    let damaged: Vec<Vec<u8>> = (0..n).map(|j| build(p.jar(j), &p.damage.iter().filter(|d| d.jar == j).collect::<Vec<_>>())).collect();
+    let ios: Vec<IoPlan> = (0..n).map(|j| p.io_of(j)).collect();
+    let qcal: QCal = retag(to_quill::<2>(&p.calamus, order(p.order_cal).as_mut()).expect("calamus admissible for quill"));
+    let qmap: QMap = retag(to_quill::<2>(&p.mappings, order(p.order_map).as_mut()).expect("mappings admissible for quill"));
+    let main = SimJar::new(damaged[0].clone(), &ios[0]);
+    let libs: Vec<SimJar> = damaged[1..].iter().zip(ios[1..].iter()).map(|(b, io)| SimJar::new(b.clone(), io)).collect();
+    let r = if op == "detect" { no_panic(|| real_pairs(&main).is_ok()) } else { no_panic(|| real_add(&main, &libs, &qcal, &qmap).is_ok()) };
+    std::process::exit(if r.is_ok() { 0 } else { 101 })
+}
+
 struct RealOut {
     pairs: Result<anyhow::Result<Vec<(MRef, MRef)>>, String>,
     add: Result<anyhow::Result<Result<MapSet, String>>, String>,
@@ -648,7 +800,10 @@ fn aim_damage(f: &mut Rng, p: &Plan, j: usize) -> Option<Damage> {
         .map
         .iter()
         .filter(|s| {
-            if style < 7 {
+            if style == 9 {
+                // the super type indices of the class header
+                s.path == "super_class" || s.path.starts_with("interface[")
+            } else if style < 7 {
                 if j == 0 {
                     matches!(s.kind, SpanKind::Attribute { .. }) && !s.path.starts_with("method[")
                 } else {
@@ -662,7 +817,7 @@ fn aim_damage(f: &mut Rng, p: &Plan, j: usize) -> Option<Damage> {
         .collect();
     let (off, aim) = if !spans.is_empty() {
         let s = *f.pick(&spans);
-        (s.start + f.usize(s.len), if j == 0 { "skipped-attr" } else { "lib-body" })
+        (s.start + f.usize(s.len), if style == 9 { "header-index" } else if j == 0 { "skipped-attr" } else { "lib-body" })
     } else {
         (f.usize(enc.bytes.len()), "any")
     };
@@ -676,7 +831,7 @@ impl Engine for C15 {
     }
     fn runs(&self, tier: Tier) -> u64 {
         match tier {
-            Tier::Quick => 30_000,
+            Tier::Quick => 20_000,
             Tier::Thorough => 400_000,
         }
     }
@@ -700,6 +855,7 @@ impl Engine for C15 {
             order_map: if w.chance(40) { 0 } else { w.next() | 1 },
             io: vec![],
             damage: vec![],
+            run: _run,
         };
         let n = p.njars();
         p.io = vec![IoPlan::plain(); n];
@@ -736,11 +892,20 @@ impl Engine for C15 {
     }
 
     fn exec(&self, p: &Plan, st: &mut RunStats) -> Vec<Violation> {
+        if let Ok(op) = std::env::var("C15_CHILD") {
+            child_main(p, &op);
+        }
         let mut out = vec![];
         let n = p.njars();
         let mut obs = Digest::new();
         // ---------------- the reference on the intended input
         let specs: Vec<Vec<RClass>> = (0..n).map(|j| p.jar(j).classes.iter().map(rclass_of_spec).collect()).collect();
+        let healthy: Vec<Vec<u8>> = (0..n).map(|j| build(p.jar(j), &[])).collect();
+        // acyclic hierarchies only (quantifier: class hierarchies)
+        if hierarchy_risk(&healthy).is_some() {
+            st.probe("inadmissible.cyclic_hierarchy");
+            return out;
+        }
         let mut notes = rb::Notes::default();
         let pairs = rb::detect(&specs[0], &mut notes).unwrap_or_else(|e| panic!("harness: inadmissible workload: {e}"));
         let applied = rb::apply(&specs[0], &specs[1..], &p.calamus, &p.mappings, &pairs);
@@ -771,7 +936,6 @@ impl Engine for C15 {
 
         let qcal: QCal = retag(to_quill::<2>(&p.calamus, order(p.order_cal).as_mut()).expect("calamus admissible for quill"));
         let qmap: QMap = retag(to_quill::<2>(&p.mappings, order(p.order_map).as_mut()).expect("mappings admissible for quill"));
-        let healthy: Vec<Vec<u8>> = (0..n).map(|j| build(p.jar(j), &[])).collect();
         let plain = vec![IoPlan::plain(); n];
 
         // ---------------- T0
@@ -857,8 +1021,27 @@ impl Engine for C15 {
                     match d.aim.as_str() {
                         "skipped-attr" => st.probe("t2.damage_in_skipped_attr"),
                         "lib-body" => st.probe("t2.damage_in_lib_body"),
+                        "header-index" => st.probe("t2.damage_in_super_type_index"),
                         _ => st.probe("t2.damage_anywhere"),
                     }
+                }
+            }
+            'cmp: {
+            if !p.damage.is_empty() {
+                let delivered: Vec<Vec<u8>> = (0..n).map(|j| SimJar::new(damaged[j].clone(), &ios[j]).delivered()).collect();
+                if let Some(why) = hierarchy_risk(&delivered) {
+                    // the code under test recurses over super types: not in this process
+                    st.probe(if why == "cyclic-hierarchy" { "t2.child.cyclic_hierarchy" } else { "t2.child.unreadable_header" });
+                    for op in ["detect", "add"] {
+                        match run_child(p, op) {
+                            None => st.probe("t2.child.returned"),
+                            Some((class, detail)) => {
+                                obs.str(class);
+                                out.push(Violation::new("T2", class, format!("{op}.{why}"), detail));
+                            }
+                        }
+                    }
+                    break 'cmp;
                 }
             }
             let t2 = run_real(&damaged, &ios, &qcal, &qmap, st);
@@ -937,6 +1120,7 @@ impl Engine for C15 {
                     }
                 }
             }
+            }
             // heal: healthy media, same operation, T0 answer
             let again = run_real(&healthy, &plain, &qcal, &qmap, st);
             match (&again.add, &t0_map) {
@@ -973,7 +1157,7 @@ impl Engine for C15 {
         (ops, p.io.iter().map(|io| io.faults.len()).sum::<usize>() as u64 + p.damage.len() as u64)
     }
     fn rule(&self) -> String {
-        "one run = one main jar + 0-2 library jars of template classes (type universe and 1-4 bridge families of 1-4 levels; classes, interfaces; super types in the main jar, only in a library, or nowhere; 27 bridge / near-miss templates; random class-file layout, stored or deflated, shuffled archive order, non-class entries) x calamus and named mapping sets naming or not naming bridge, delegate and the declarations above them x two insertion orders x one I/O schedule per jar (chunk ceiling, short %, EINTR %) x 0-2 faults (EOF, flipped jar byte, EIO at call / at offset, failing seek, flipped class-file bit aimed at structures the visitor skips); non-trivial = a short transfer, EINTR or fault fired; distinct by (workload shape digest, I/O event-log digest)".into()
+        "one run = one main jar + 0-2 library jars of template classes (type universe and 1-4 bridge families of 1-4 levels; classes, interfaces; super types in the main jar, only in a library, or nowhere; 27 bridge / near-miss templates; random class-file layout, stored or deflated, shuffled archive order, non-class entries) x calamus and named mapping sets naming or not naming bridge, delegate and the declarations above them x two insertion orders x one I/O schedule per jar (chunk ceiling, short %, EINTR %) x 0-2 faults (EOF, flipped jar byte, EIO at call / at offset, failing seek, flipped class-file bit aimed at structures the visitor skips or at the super type indices of the header); non-trivial = a short transfer, EINTR or fault fired; distinct by (workload shape digest, I/O event-log digest)".into()
     }
     fn assumptions(&self) -> Vec<String> {
         vec![
@@ -984,13 +1168,14 @@ impl Engine for C15 {
             "if the mapping set has no entry for the bridge's class nothing is written; an existing entry of the delegate keeps comment and parameters, only its names change".into(),
             "quantifier: runs in which two bridges of one class aim at the same delegate key are not evaluated (probe inadmissible.*); calamus is injective on classes; no class is defined twice; hierarchies are acyclic".into(),
             "under faults: Err is accepted; Ok is compared with the reference over the classes the delivered archives contain (zip crate as trusted reader); a delivered class the reference parser rejects while the real code answers Ok is counted (lenient_accept), not flagged".into(),
+            "a delivered main or library jar whose class headers describe a cyclic hierarchy (possible only after a class-file bit flip), or whose headers a 60-line pool walker cannot read, is not executed in the harness process: both operations run in a child process (`sh -c 'ulimit -v 150000; ulimit -t 20; exec sim C15 --replay <plan>'`, C15_CHILD=detect|add); only 'returned' vs. stack overflow / allocation failure / CPU limit / panic is judged there, results are not compared".into(),
             "harness profile: opt-level 2 with overflow checks and debug assertions".into(),
         ]
     }
     fn real_and_stub(&self) -> serde_json::Value {
         json!({
             "real": ["specialized_methods::add_specialized_methods_to_mappings", "specialized_methods::GetSpecializedMethods::get_specialized_methods", "dukebox::storage::{Jar, OpenedJar for ZipArchive<R>}::{read_classes_into, get_super_classes_provider}", "duke::read_class_multi", "quill::remapper::{BRemapperImpl, JarSuperProv}", "zip::ZipArchive (reading)"],
-            "stub": ["jar byte source (SimJar -> SimReader per open)", "zip::ZipWriter assembling the input jars", "refclass encoder producing the class files"],
+            "stub": ["jar byte source (SimJar -> SimReader per open)", "child process with address-space and CPU limits for inputs with a cyclic hierarchy", "zip::ZipWriter assembling the input jars", "refclass encoder producing the class files"],
             "reference": ["refbridge::{project, detect, apply}", "refclass::{parse, encode}", "refmap::MapSet"]
         })
     }
@@ -1002,7 +1187,7 @@ impl Engine for C15 {
             "bridge.flagged", "bridge.unflagged", "bridge.in_interface", "bridge.interface_parent",
             "name.own", "name.inherited1", "name.inherited2+", "name.unnamed", "name.cut_by_unnamed_class", "name.via_library_only_super", "super.missing", "super.library_only",
             "delegate.already_named", "delegate.new_entry", "delegate.other_class", "bridge.class_absent",
-            "ref.adopted_unknown", "io.short_transfers", "io.eintr", "lenient_accept", "t2.ok_compared", "t2.ok_with_class_damage", "t2.add_err", "t2.damage_in_skipped_attr", "t2.damage_in_lib_body", "heal.ok",
+            "ref.adopted_unknown", "io.short_transfers", "io.eintr", "lenient_accept", "t2.ok_compared", "t2.ok_with_class_damage", "t2.add_err", "t2.damage_in_skipped_attr", "t2.damage_in_lib_body", "t2.damage_in_super_type_index", "t2.child.cyclic_hierarchy", "t2.child.unreadable_header", "t2.child.returned", "heal.ok",
         ]
     }
 }
@@ -1127,6 +1312,55 @@ impl C15 {
 
 fn shrink_plan_c15(p: &Plan) -> Vec<Plan> {
     let mut c: Vec<Plan> = vec![];
+    if !p.damage.is_empty() {
+        // a plan whose T2 stage runs in child processes is expensive to execute: coarse steps only
+        let n = p.njars();
+        let delivered: Vec<Vec<u8>> = (0..n).map(|j| SimJar::new(build(p.jar(j), &p.damage.iter().filter(|d| d.jar == j).collect::<Vec<_>>()), &p.io_of(j)).delivered()).collect();
+        if hierarchy_risk(&delivered).is_some() {
+            for i in 0..p.damage.len() {
+                let mut q = p.clone();
+                q.damage.remove(i);
+                c.push(q);
+            }
+            for i in 0..p.libs.len() {
+                let mut q = p.clone();
+                q.libs.remove(i);
+                if q.io.len() > i + 1 {
+                    q.io.remove(i + 1);
+                }
+                q.damage.retain(|d| d.jar != i + 1);
+                for d in q.damage.iter_mut() {
+                    if d.jar > i + 1 {
+                        d.jar -= 1;
+                    }
+                }
+                c.push(q);
+            }
+            if p.io.iter().any(|io| !io.is_plain()) {
+                let mut q = p.clone();
+                q.io = vec![IoPlan::plain(); n];
+                c.push(q);
+            }
+            for j in 0..n {
+                for i in 0..p.jar(j).classes.len() {
+                    let mut q = p.clone();
+                    q.jar_mut(j).classes.remove(i);
+                    c.push(q);
+                }
+            }
+            for k in p.mappings.classes.keys() {
+                let mut q = p.clone();
+                q.mappings.classes.remove(k);
+                c.push(q);
+            }
+            for k in p.calamus.classes.keys() {
+                let mut q = p.clone();
+                q.calamus.classes.remove(k);
+                c.push(q);
+            }
+            return c;
+        }
+    }
     // faults and noise first
     for i in 0..p.damage.len() {
         let mut q = p.clone();
